@@ -69,15 +69,20 @@ LEVEL_TEXT = ("Lean 4 theorems over executable models of history.py. (a) FileHis
               "(a') History base class with InMemoryHistory / DummyHistory: cache, get_strings order, appends before / "
               "after load for all operation sequences; the inline load() generator stepped item by item (exact over a "
               "copy; the duplicate produced by the current live-list iteration proved on a witness). "
-              "(b) ThreadedHistory as transition systems at lock/event granularity. Code WITH the proposed repair of F5 "
-              "(append_string inserts, counts and stores inside the lock; list reset + snapshot inside the lock; load() "
-              "skips front insertions and yields them once at the end): for EVERY interleaving - any number of "
-              "concurrent append_string calls, cancelled load() calls, later load() calls, an inner history that "
-              "raises - a completed call has yielded the history as of its call, newest first, followed by the entries "
+              "(b) ThreadedHistory as transition systems at lock/event granularity. The code as it is, with the repair "
+              "of F5 (append_string inserts, counts and stores inside the lock; call of the inner history + list reset "
+              "+ first item inside ONE locked block; load() skips front insertions and yields them once at the end), "
+              "for BOTH kinds of inner history - eager (reads its storage when load_history_strings() is called: "
+              "FileHistory) and lazy (when its first item is requested: a generator): for EVERY interleaving - any "
+              "number of concurrent append_string calls, cancelled load() calls, later load() calls, an inner history "
+              "that raises - a completed call has yielded the history as of its call, newest first, followed by the entries "
               "appended meanwhile, each exactly once; the cache ends up exact; every append reaches the store once, in "
               "order; every call terminates (budget + no lost wake-up); the same safety statement for ANY NUMBER of "
-              "simultaneous load() calls with appends, cancellations and inner failures at per-event.set() granularity. "
-              "Code WITHOUT the repair (the tree today): the "
+              "simultaneous load() calls with appends, cancellations and inner failures at per-event.set() granularity; "
+              "that the call stands inside the lock is a side condition re-decided on every run (gen_call_in_lock): "
+              "with the call in front of the lock an eager inner history loses an appended entry (Lean witness "
+              "hoisted_call_loses_entry), a lazy one does not. "
+              "Code WITHOUT the repair (before fix 25d5ebc; kept as the model of F5): the "
               "same for every interleaving in which no append_string overlaps a load; the overlapping case is refuted "
               "on concrete schedules (known finding F5a-c). Several simultaneous load() calls at per-event.set() "
               "granularity (no append_string): safety, no lost wake-up, termination bound. Tied to the source on every "
@@ -88,8 +93,8 @@ LEVEL_TEXT = ("Lean 4 theorems over executable models of history.py. (a) FileHis
 LEVEL_NOTE = ("trusted: Lean kernel, axioms propext/Classical.choice/Quot.sound only; hand-written models (validated by "
               "the correspondence, not proved equal to the Python); CPython bytes/str/codecs/file/asyncio semantics; one "
               "OS write per write() call on an append-mode file is contiguous; threaded parts are at atomic-step "
-              "granularity (partial); until proposed_fixes/C13-threaded-append.diff is committed the all-interleavings "
-              "theorems speak about tree + diff, not about the tree")
+              "granularity (partial); the two kinds of inner history (storage read at the call / at the first item) "
+              "are assumed to be the only ones")
 TECHNIQUE = "Lean 4 proof over hand-written executable model + differential correspondence with the real code"
 RULE = ("file: exhaustive entry lists over the alphabet {a,+,#,LF,CR,U+2028,NUL,U+1F600} (bounds per tier) and, shorter, "
         "over every character str.splitlines() breaks on {LF,CR,VT,FF,FS,GS,RS,NEL,U+2028,U+2029} plus {+,#,space,a,"
@@ -133,7 +138,7 @@ TRUSTED = ["harness/c13.py compares file bytes after every append, the loaded li
            "and (strs, loaded, append counter, yielded items, events, number of registered events, store, program "
            "counters) after every scheduled step",
            "harness/gen_c13.py: behavioural probes of the tree -> Gen/C13.lean (notify loops over a copy; F5 repair "
-           "present; write() calls per record; inline load() over a copy)",
+           "present; inner history called inside the lock; write() calls per record; inline load() over a copy)",
            "Ptk/Model/C13.lean, C13Fixed.lean, C13Mem.lean are hand translations of history.py (correspondence-checked)",
            "the schedule shim (replacement of `threading` inside history.py and the gated inner History) pauses "
            "threads only at synchronisation points and never while they hold the history's lock; it does not change "
@@ -147,19 +152,19 @@ ASSUMPTIONS = ["CPython: open(...,'ab').write appends contiguously; iteration ov
                "str(datetime.now()) contains no newline (the correspondence injects the timestamp; the oracle uses the real clock)",
                "lone surrogates are outside the alphabet (str.encode raises; Lean Char cannot hold them)",
                "threaded parts: every code section between two synchronisation points (lock block, event.wait, each "
-               "event.set, the inner load_history_strings call / first item, store_string) is atomic; the inner history "
-               "looks at its storage when load_history_strings() is called or its first item is requested and not "
-               "again later (true for FileHistory, InMemoryHistory, any generator over a snapshot); a Python list "
+               "event.set, store_string) is atomic; an inner history looks at its storage EITHER when "
+               "load_history_strings() is called (eager: FileHistory) OR when its first item is requested (lazy: "
+               "InMemoryHistory, any generator over a snapshot) - both kinds are modelled - and not again later; a Python list "
                "iterator is an index into the live list; load()'s lock-free read of the append counter is equivalent "
                "to a read under the lock (CPython attribute reads are atomic; shown in the model comment)",
                "several processes: every write() call on the append-mode file is one contiguous OS write (the file "
                "object's buffer can only merge calls, which removes interleavings)"]
 PARTIAL_SCOPE = ["ThreadedHistory: real preemption inside a step is not modelled; an inner history that re-reads its "
                  "storage lazily after its first item is not modelled",
-                 "entries appended while a load() is in progress: FALSE of the tree until "
-                 "proposed_fixes/C13-threaded-append.diff is committed (F5, known findings) - the theorems about the "
-                 "tree's code cover exactly the schedules without such an overlap; the all-interleavings theorems are "
-                 "about the repaired code, whose correspondence runs against tree + diff",
+                 "entries appended while a load() is in progress: repaired in the tree (fix 25d5ebc); the "
+                 "all-interleavings theorems are about that code and need the generated side condition that the "
+                 "inner history is called inside the locked block (gen_call_in_lock); a tree without the repair is "
+                 "compared with the F5 model (`step`), whose theorems cover exactly the schedules without an overlap",
                  "several simultaneous load() calls together with append_string / cancellation / inner failure: SAFETY is "
                  "proved for the repaired code (THm); no-lost-wake-up and the termination bound are proved for several "
                  "calls without those (THn) and for one call at a time with all of them (THF), not for the combination",
@@ -181,6 +186,10 @@ FIX_DIFF = os.path.join(core.ROOT, "proposed_fixes", "C13-threaded-append.diff")
 # tree that has only a part of the repair is then compared with the full repair and fails; the model of
 # the code with F5 (`step`) otherwise.
 FIXED = gen_c13.probe_append_parts(H)["snapshot"]
+# ... and is the inner load_history_strings() CALLED in front of that locked block (a regression: an inner
+# history that reads its storage when called - FileHistory - then reads it outside the lock)?  The model
+# follows the tree (Gen.C13.callHoisted); the theorems need `callHoisted = false` (gen_call_in_lock).
+HOIST = bool(FIXED and gen_c13.probe_call_hoisted(H))
 _HFIX = [None, False]
 
 
@@ -624,6 +633,8 @@ class Sched:
         self.finished = set()
         self.free = False
         self.freed = set()       # roles that run on without stopping (stragglers of cancelled calls)
+        self.postcall = False    # stop the loader when the inner load_history_strings() returns (only
+                                 # reachable when that call stands outside the lock)
         self.set_pauses = False  # also stop the loader after every single event.set()
 
     def pause(self, role, point):
@@ -766,30 +777,53 @@ class GatedFailure(Exception):
 
 
 class GatedHistory(History):
-    """inner history: persistent list, snapshot on load (like InMemoryHistory / FileHistory),
-    pausing the loader thread before the snapshot and before every item; `fail` makes it raise at
-    the next of these points"""
+    """inner history: persistent list, snapshot on load, pausing the loader thread at its points;
+    `fail` makes it raise at the next of these points.  Two kinds: `eager` = it reads its storage when
+    load_history_strings() is CALLED (what FileHistory does: an ordinary function that returns
+    reversed(strings)); lazy = when its first item is requested (a generator: InMemoryHistory).
+    load_history_strings is an ordinary function here that returns a generator, so that the loader can be
+    stopped right after the call returned ("postcall") - which only happens when the call stands outside
+    the history's lock (nothing stops inside the lock)."""
 
-    def __init__(self, sched, storage):
+    def __init__(self, sched, storage, eager=False):
         super().__init__()
         self.s = sched
         self._storage = list(storage)
+        self.eager = bool(eager)
         self.fail = False
         self.snap = None
 
     def _point(self, gated, name):
         if gated:
-            self.s.pause("L", name)
             if self.fail:
+                self.fail = False
+                raise GatedFailure(name)
+            self.s.pause("L", name)
+            # (a failure ordered while the loader stands behind the returned call happens when the first
+            #  item is requested, not in the call)
+            if self.fail and name != "postcall":
                 self.fail = False
                 raise GatedFailure(name)
 
     def load_history_strings(self):
         gated = _role() == "L"
-        self._point(gated, "called")
-        snap = self._storage[::-1]
-        if gated:
-            self.snap = list(snap)
+        post = gated and self.s.postcall
+        if not post:
+            self._point(gated, "called")
+        snap = None
+        if self.eager:
+            snap = self._storage[::-1]
+            if gated:
+                self.snap = list(snap)
+        if post:
+            self._point(True, "postcall")
+        return self._items(gated, snap)
+
+    def _items(self, gated, snap):
+        if snap is None:
+            snap = self._storage[::-1]
+            if gated:
+                self.snap = list(snap)
         for item in snap:
             self._point(gated, "yield")
             yield item
@@ -978,7 +1012,7 @@ class ThRun2:
         self.threads = []
         self.final = False
         # the repaired code stops at other points (reset + snapshot are one locked block)
-        self.ld = LoaderF(self.s, self.inner) if FIXED else None
+        self.ld = LoaderF(self.s, self.inner, HOIST) if FIXED else None
 
     def _consume(self, role, out):
         _tls.owner = role
@@ -1028,6 +1062,8 @@ class ThRun2:
                     self.cthreads[role].join(10)
         elif op[0] == "l" and self.ld is not None:
             if op[1] != "snap" and self.ld.phase != "none":
+                if op[1] == "reset":
+                    self.ld.step("call")      # (a step of its own only when the call is outside the lock)
                 self.ld.step(op[1])
         elif op[0] == "l":
             what = op[1]
@@ -1089,12 +1125,15 @@ class LoaderF:
     "end" inside the inner generator from the second item on (the first item is requested inside the
     lock, where nothing stops) | "unlocked" after `_loaded = True`."""
 
-    PC = {"none": "-", "start": "start", "reset": "iter", "iter": "iter", "end": "iter", "appended": "notify",
+    PC = {"none": "-", "start": "start", "called": "called", "startfail": "iter",
+          "reset": "iter", "iter": "iter", "end": "iter", "appended": "notify",
           "final": "notifyFinal", "loop": "loop", "loopFinal": "loopFinal", "fin": "fin"}
 
-    def __init__(self, sched, inner):
+    def __init__(self, sched, inner, hoist=False):
         self.s = sched
         self.inner = inner
+        self.hoist = hoist         # the inner load_history_strings() is called in front of the locked block
+        sched.postcall = hoist
         self.phase = "none"
         self.failpending = False   # `.lfail` while the generator is suspended: it raises when resumed
         self.failed = False
@@ -1123,13 +1162,26 @@ class LoaderF:
     def step(self, what):
         """what: reset | append | notify | set | done | final | fail; a step that is not enabled is a no-op"""
         ph = self.phase
-        if what == "reset":
-            if ph == "start":
+        if what == "call":
+            # a step of its own only when the call stands outside the lock
+            if self.hoist and ph == "start":
+                at = self._go()
+                assert at == "postcall", at
+                self.phase = "called"
+        elif what == "reset":
+            if (ph == "start" and not self.hoist) or ph == "called":
                 at = self._go()
                 assert at == "unlocked", at
                 self.phase = "reset"
         elif what == "fail":
-            if ph == "start":
+            if ph == "start" and self.hoist:
+                # the call raises outside the lock: no list reset, straight to `finally:` (= the `done` step)
+                self.failpending = True
+                self.failed = True
+                self.inner.fail = True
+                self.inner.snap = []
+                self.phase = "startfail"
+            elif ph == "start" or ph == "called":
                 self.inner.fail = True
                 at = self._go()
                 assert at == "unlocked", at
@@ -1157,7 +1209,7 @@ class LoaderF:
             elif ph == "loopFinal":
                 self.phase = self._after_set(self._go(), True)
         elif what == "done":
-            if ph in ("reset", "iter", "end") and self.remaining() == 0:
+            if ph in ("reset", "iter", "end", "startfail") and self.remaining() == 0:
                 at = self._go()
                 assert at == "unlocked", at
                 self.phase = "final"
@@ -1183,16 +1235,16 @@ class ThRunX:
     (any number of them one after the other, each with its own role C0, C1, ...), cancellation,
     append_string (atomic), an inner history that raises.  Model: `THF` / `stepF`."""
 
-    def __init__(self, M, old, pre):
+    def __init__(self, M, old, pre, eager=False):
         self.M = M
         self.s = Sched()
         self.real_threading = M.threading
         M.threading = make_shim(self.s)
-        self.inner = GatedHistory(self.s, old)
+        self.inner = GatedHistory(self.s, old, eager)
         self.th = M.ThreadedHistory(self.inner)
         for p in pre:
             self.th.append_string(p)
-        self.ld = LoaderF(self.s, self.inner)
+        self.ld = LoaderF(self.s, self.inner, HOIST and M is H)
         self.ncalls = 0
         self.role = None          # role of the load() call in progress
         self.out = []
@@ -1295,7 +1347,7 @@ class ThRunX:
                     s.cv.wait_for(lambda: self.role in s.finished, timeout=30)
                 s.let_go(self.role)      # the executor job that was under way runs out on its own
                 self.cthread.join(10)
-        elif k in ("lreset", "lappend", "lnotify", "ldone", "lfinal", "lfail"):
+        elif k in ("lcall", "lreset", "lappend", "lnotify", "ldone", "lfinal", "lfail"):
             if self.ld.phase != "none":
                 self.ld.step(k[1:])
         elif k == "app":
@@ -1343,8 +1395,8 @@ class ThRunX:
         self.M.threading = self.real_threading
 
 
-X_OPS = ("cstart", "cwait", "cread", "cyield", "ccancel", "lreset", "lappend", "lnotify", "ldone", "lfinal",
-         "lfail", "nop", "afin")
+X_OPS = ("cstart", "cwait", "cread", "cyield", "ccancel", "lcall", "lreset", "lappend", "lnotify", "ldone",
+         "lfinal", "lfail", "nop", "afin")
 
 
 def thx_impl(case, observer=None, finale=None):
@@ -1355,7 +1407,7 @@ def thx_impl(case, observer=None, finale=None):
     out = []
     r = None
     try:
-        r = ThRunX(M, case["old"], case["pre"])
+        r = ThRunX(M, case["old"], case["pre"], case.get("eager", False))
         out.append(r.line())
         for op in case["ops"]:
             r.step(op)
@@ -1372,7 +1424,7 @@ def thx_impl(case, observer=None, finale=None):
 
 
 def thx_model_lines(case):
-    out = ["xnew " + enc_strs(case["old"]) + " " + enc_strs(case["pre"])]
+    out = [f"xnewc {1 if case.get('eager') else 0} " + enc_strs(case["old"]) + " " + enc_strs(case["pre"])]
     for op in case["ops"]:
         if op[0] == "app":
             out.append("x app " + enc_str(op[1]))
@@ -1393,6 +1445,8 @@ def th_to_thx(case):
             ops.append(["afin"])
         elif op[0] == "lsnap":
             ops.append(["nop"])
+        elif op[0] == "lreset":
+            ops += [["lcall"], ["lreset"]]     # (`lcall` does something only when the call is outside the lock)
         else:
             ops.append([op[0]])
     return {"kind": "thx", "old": case["old"], "pre": case["pre"], "ops": ops}
@@ -1506,8 +1560,8 @@ class ThRunM(ThRunX):
 
     NCONS = 3
 
-    def __init__(self, M, old, pre):
-        super().__init__(M, old, pre)
+    def __init__(self, M, old, pre, eager=False):
+        super().__init__(M, old, pre, eager)
         self.s.set_pauses = True
         self.outs = {}
         self.cthreads = {}
@@ -1592,7 +1646,7 @@ def thm_impl(case, observer=None, finale=None):
     out = []
     r = None
     try:
-        r = ThRunM(M, case["old"], case["pre"])
+        r = ThRunM(M, case["old"], case["pre"], case.get("eager", False))
         out.append(r.line())
         for op in case["ops"]:
             r.step(op)
@@ -1609,7 +1663,7 @@ def thm_impl(case, observer=None, finale=None):
 
 
 def thm_model_lines(case):
-    out = ["mnew " + enc_strs(case["old"]) + " " + enc_strs(case["pre"])]
+    out = [f"mnewc {1 if case.get('eager') else 0} " + enc_strs(case["old"]) + " " + enc_strs(case["pre"])]
     for op in case["ops"]:
         if op[0] == "c":
             out.append(f"m c {op[1]} {op[2]}")
@@ -1722,6 +1776,8 @@ class CtlM:
     """control skeleton of `stepM`, used only to enumerate schedules whose steps are (mostly) enabled; it does
     not track the events, so a `wait` may be a stutter - on both sides"""
 
+    eager = False
+
     def __init__(self, nstore, ncons):
         self.l, self.rem, self.napp, self.loaded, self.nstore = "-", 0, 0, False, nstore
         self.left = 0
@@ -1744,12 +1800,13 @@ class CtlM:
                 e.append(["c", i, c])
                 if self.cancels < max_cancel:
                     e.append(["c", i, "cancel"])
-        m = {"start": "reset", "notify": "notify", "notifyFinal": "final", "loop": "set"}
+        m = {"start": "call" if HOIST else "reset", "called": "reset", "notify": "notify", "notifyFinal": "final",
+             "loop": "set"}
         if self.l in m:
             e.append(["l", m[self.l]])
         if self.l == "iter":
             e.append(["l", "append" if self.rem else "done"])
-        if self.fails < max_fail and (self.l == "start" or (self.l == "iter" and self.rem and self.napp)):
+        if self.fails < max_fail and (self.l in ("start", "called") or (self.l == "iter" and self.rem and self.napp)):
             e.append(["l", "fail"])
         if self.apps < max_app and self.c[0] != "-":
             e.append(["app"])
@@ -1777,8 +1834,12 @@ class CtlM:
             self.nstore += 1
         else:
             w = op[1]
-            if w == "reset":
-                self.l, self.rem = "iter", self.nstore
+            if w == "call":
+                self.l, self.rem = "called", self.nstore
+            elif w == "reset":
+                if not (self.l == "called" and CtlM.eager):
+                    self.rem = self.nstore
+                self.l = "iter"
             elif w == "append":
                 self.l, self.rem, self.napp = "notify", self.rem - 1, self.napp + 1
             elif w in ("notify", "final"):
@@ -1834,12 +1895,22 @@ def thm_exhaustive(tier):
         old = ["o%d" % i for i in range(nstore)]
         for sched in thm_schedules(nstore, ncons, depth, apps, cancels, fails):
             yield {"kind": "thm", "old": old, "pre": [], "ops": _label_m(sched)}
+    # an eager inner history (reads its storage when called)
+    CtlM.eager = True
+    try:
+        nstore, ncons, depth, apps, cancels, fails = (1, 2, 5, 1, 0, 0) if tier == "quick" else (1, 2, 7, 1, 0, 0)
+        for sched in thm_schedules(nstore, ncons, depth, apps, cancels, fails):
+            yield {"kind": "thm", "old": ["o0"], "pre": [], "eager": True, "ops": _label_m(sched)}
+    finally:
+        CtlM.eager = False
 
 
 def rand_thm_case(rng):
     old = ["o%d" % i for i in range(rng.choice([0, 1, 2, 3]))]
     pre = ["p0"] if rng.random() < 0.2 else []
     n = rng.choice([2, 2, 3])
+    eager = rng.random() < 0.5
+    CtlM.eager = eager
     ctl = CtlM(len(old) + len(pre), n)
     max_app, max_cancel, max_fail = rng.choice([0, 1, 2, 3]), rng.choice([0, 1, 2]), rng.choice([0, 0, 0, 1])
     sched = []
@@ -1858,7 +1929,8 @@ def rand_thm_case(rng):
         for i in reversed(fins):
             ops.pop(i)
             ops.insert(min(len(ops), i + rng.randrange(0, 6)), ["afin"])
-    return {"kind": "thm", "old": old, "pre": pre, "ops": ops}
+    CtlM.eager = False
+    return {"kind": "thm", "old": old, "pre": pre, "eager": eager, "ops": ops}
 
 
 def th2_run(case, finale=None):
@@ -2584,6 +2656,8 @@ class CtlX:
         if self.c in ("wait", "read", "yield") and self.cancels < max_cancel:
             e.append("ccancel")
         if self.l == "start":
+            e.append("lcall" if HOIST else "lreset")
+        if self.l == "called":
             e.append("lreset")
         if self.l == "iter":
             e.append("lappend" if self.rem else "ldone")
@@ -2591,9 +2665,10 @@ class CtlX:
             e.append("lnotify")
         if self.l == "notifyFinal":
             e.append("lfinal")
-        # the inner history can raise inside the locked reset block, or when a further item is requested
-        # (the first item is requested inside that block)
-        if self.fails < max_fail and (self.l == "start" or (self.l == "iter" and self.rem and self.napp)):
+        # the inner history can raise in its call / inside the locked reset block, or when a further item
+        # is requested (the first item is requested inside that block)
+        if self.fails < max_fail and (self.l in ("start", "called")
+                                      or (self.l == "iter" and self.rem and self.napp)):
             e.append("lfail")
         if self.pend:
             e.append("afin")
@@ -2618,8 +2693,12 @@ class CtlX:
         elif k == "ccancel":
             self.c = "done"
             self.cancels += 1
+        elif k == "lcall":
+            self.l, self.rem = "called", self.nstore     # what an eager inner history reads now
         elif k == "lreset":
-            self.l, self.rem = "iter", self.nstore
+            if not (self.l == "called" and CtlX.eager):
+                self.rem = self.nstore
+            self.l = "iter"
         elif k == "lappend":
             self.l, self.rem, self.napp = "notify", self.rem - 1, self.napp + 1
         elif k == "lnotify":
@@ -2639,9 +2718,10 @@ class CtlX:
             self.pend = False
 
     split = False     # True: the return of the appending thread (`afin`) is a step of its own
+    eager = False     # kind of inner history of the case being generated
 
 
-def all_schedules_x(nstore, depth, max_app, max_cancel=0, max_fail=0, max_calls=1, split=False):
+def all_schedules_x(nstore, depth, max_app, max_cancel=0, max_fail=0, max_calls=1, split=False, eager=False):
     """maximal schedules (length == depth, or nothing enabled) of enabled steps of the repaired code"""
     out = []
 
@@ -2657,11 +2737,11 @@ def all_schedules_x(nstore, depth, max_app, max_cancel=0, max_fail=0, max_calls=
             go(c2, sched)
             sched.pop()
 
-    CtlX.split = split
+    CtlX.split, CtlX.eager = split, eager
     try:
         go(CtlX(nstore), [])
     finally:
-        CtlX.split = False
+        CtlX.split, CtlX.eager = False, False
     return out
 
 
@@ -2697,6 +2777,14 @@ def thx_exhaustive(tier):
     for old, pre, depth, apps, cancels, fails, calls, *split in plan:
         for sched in all_schedules_x(len(old) + len(pre), depth, apps, cancels, fails, calls, bool(split)):
             yield {"kind": "thx", "old": old, "pre": pre, "ops": label_apps(sched)}
+    # the second kind of inner history: it reads its storage when load_history_strings() is CALLED (FileHistory)
+    eplan = ([(["o1", "o2"], [], 8, 1, 0, 0, 1), (["o1"], [], 6, 1, 0, 0, 1, True), (["o1"], [], 7, 0, 0, 1, 1)]
+             if tier == "quick" else
+             [(["o1", "o2"], [], 11, 1, 0, 0, 1), (["o1"], [], 9, 1, 0, 0, 1, True), (["o1", "o2"], [], 11, 0, 0, 1, 1),
+              ([], ["p1"], 9, 2, 1, 0, 2)])
+    for old, pre, depth, apps, cancels, fails, calls, *split in eplan:
+        for sched in all_schedules_x(len(old) + len(pre), depth, apps, cancels, fails, calls, bool(split), True):
+            yield {"kind": "thx", "old": old, "pre": pre, "eager": True, "ops": label_apps(sched)}
 
 
 def rand_thx_case(rng):
@@ -2709,10 +2797,13 @@ def rand_thx_case(rng):
     max_fail = rng.choice([0, 0, 0, 1])
     max_calls = rng.choice([1, 2, 3])
     CtlX.split = rng.random() < 0.5
+    CtlX.eager = rng.random() < 0.5
     try:
-        return _rand_thx_body(rng, old, pre, ctl, sched, max_app, max_cancel, max_fail, max_calls)
+        case = _rand_thx_body(rng, old, pre, ctl, sched, max_app, max_cancel, max_fail, max_calls)
+        case["eager"] = CtlX.eager
+        return case
     finally:
-        CtlX.split = False
+        CtlX.split, CtlX.eager = False, False
 
 
 def _rand_thx_body(rng, old, pre, ctl, sched, max_app, max_cancel, max_fail, max_calls):
@@ -2722,7 +2813,8 @@ def _rand_thx_body(rng, old, pre, ctl, sched, max_app, max_cancel, max_fail, max
             break
         if rng.random() < 0.05:
             # a disabled step must be a no-op on both sides
-            k = rng.choice(["cwait", "cread", "cyield", "ccancel", "lreset", "lappend", "lnotify", "ldone", "lfinal"])
+            k = rng.choice(["cwait", "cread", "cyield", "ccancel", "lcall", "lreset", "lappend", "lnotify", "ldone",
+                            "lfinal"])
             if k not in ctl.enabled(9, 9, 0, 9):
                 sched.append(k)
                 continue
